@@ -48,6 +48,7 @@ func newInterp(p *core.Program, fn *core.FuncRef) *absint.Interp {
 	in := &absint.Interp{Info: fn.Info(), Prog: p}
 	in.Hooks.Inline = helperInline(p, fn.Pkg.PkgPath, fn.Obj)
 	in.Hooks.FreeVar = func(v *types.Var) ast.Expr { return pureDefinition(fn, v) }
+	in.Hooks.FreeStruct = func(v *types.Var) (*ast.CompositeLit, map[string]bool) { return structDefinition(p, fn, v) }
 	in.Hooks.FreeClosure = func(v *types.Var) *ast.FuncLit {
 		// a local of the enclosing function bound exactly once, to a literal (`limitReached := func() bool {…}`)
 		info := fn.Info()
@@ -467,6 +468,71 @@ func helperClosure(p *core.Program, fn *core.FuncRef) []*core.FuncRef {
 		})
 	}
 	return out
+}
+
+// structDefinition: for a struct-typed local of fn defined once by a composite literal (and never assigned as a
+// whole or address-taken afterwards), the literal and the fields of it that no code of the package ever writes
+// (`x.f = …`, `x.f++`, `&x.f`, through any variable of that type) and whose values are pure: those fields hold the
+// literal's value whenever a captured use reads them.
+func structDefinition(p *core.Program, fn *core.FuncRef, v *types.Var) (*ast.CompositeLit, map[string]bool) {
+	if fn == nil || fn.Decl == nil || fn.Decl.Body == nil || v.Pos() < fn.Decl.Body.Pos() || v.Pos() > fn.Decl.Body.End() {
+		return nil, nil
+	}
+	st, ok := v.Type().Underlying().(*types.Struct)
+	if !ok {
+		return nil, nil
+	}
+	info := fn.Info()
+	def := singleDef(info, fn.Decl.Body, v)
+	lit, ok := core.Unparen(def).(*ast.CompositeLit)
+	if def == nil || !ok {
+		return nil, nil
+	}
+	written := map[*types.Var]bool{}
+	for _, f := range fn.Pkg.Syntax {
+		ast.Inspect(f, func(n ast.Node) bool {
+			mark := func(e ast.Expr) {
+				if sel, ok := core.Unparen(e).(*ast.SelectorExpr); ok {
+					if fv, ok := info.Uses[sel.Sel].(*types.Var); ok && fv.IsField() {
+						written[fv] = true
+					}
+				}
+			}
+			switch x := n.(type) {
+			case *ast.AssignStmt:
+				for _, l := range x.Lhs {
+					mark(l)
+				}
+			case *ast.IncDecStmt:
+				mark(x.X)
+			case *ast.UnaryExpr:
+				if x.Op == token.AND {
+					mark(x.X)
+				}
+			}
+			return true
+		})
+	}
+	stable := map[string]bool{}
+	for _, el := range lit.Elts {
+		kv, ok := el.(*ast.KeyValueExpr)
+		if !ok {
+			return nil, nil
+		}
+		id, ok := kv.Key.(*ast.Ident)
+		if !ok {
+			continue
+		}
+		for i := 0; i < st.NumFields(); i++ {
+			if st.Field(i).Name() == id.Name && !written[st.Field(i)] {
+				stable[id.Name] = true
+			}
+		}
+	}
+	if len(stable) == 0 {
+		return nil, nil
+	}
+	return lit, stable
 }
 
 // pureDefinition: for a local of fn that is defined once, by an expression without calls or effects over operands
